@@ -56,7 +56,9 @@ LEVEL_NOTE = (
 TECHNIQUE = ("Lean 4 proof (omega / bit-level lemmas for the floor-division sequence, induction over expression and statement trees with an "
              "append-only event-log model of irutils.Builder) + T2 table translation + differential execution against CPython")
 RULE = ("operators: each of + - * // / on ints at a boundary grid {0,+-1,+-2,+-3,+-7,+-2^31,+-2^62,min,max,...}^2 plus random 8/16/32/63-bit "
-        "pairs; comparisons: 6 operators x 5 contexts (if, while, and-left, and-right, or) on a signed grid; programs: generated modules of 1-3 "
+        "pairs; comparisons: 6 operators x 5 contexts (if, while, and-left, and-right, or) on a signed grid and x 7 contexts with a literal on the "
+        "left / right / both sides (if, while, or, for) at the values c-1, c, c+1, 0, min, max; generated programs also get every int parameter at "
+        "c-1, c, c+1 for constants c compared in the function; programs: generated modules of 1-3 "
         "functions, 3-5 argument vectors each. distinct = distinct (source, function, arguments); non-trivial = the function executes a loop or a "
         "call, a floor division with a negative operand, or an operator result outside 32 bits")
 TRUSTED = [
@@ -861,8 +863,26 @@ def continue_failures(records):
 
 
 # ---------------------------------------------------------------------------------------------
+def compared_constants(x, inside=False, acc=None):
+    """integer literals that occur inside a comparison of a function body"""
+    acc = set() if acc is None else acc
+    if isinstance(x, (list, tuple)):
+        if x and x[0] == "cmp":
+            inside = True
+        if inside and len(x) == 2 and x[0] == "num":
+            acc.add(x[1])
+        for y in x:
+            compared_constants(y, inside, acc)
+    return acc
+
+
 def arg_vectors(rng, f, n):
     out = []
+    # boundary-directed: every int parameter at c-1, c, c+1 for constants c that are compared somewhere in the function
+    cs = sorted(c for c in compared_constants(f["body"]) if abs(c) < (1 << 40))
+    for c in rng.sample(cs, min(len(cs), 2)):
+        for d in (-1, 0, 1):
+            out.append([(c + d if t == "int" else float(c + d)) for _, t in f["params"]])
     small = [0, 1, 2, 3, 4, 5, 6, 7, -1, -2, -3, -5, 10]
     for k in range(n):
         v = []
@@ -1163,6 +1183,17 @@ CONTEXTS = {
     "and-right": "def f(a: int, b: int) -> int:\n    n = 0\n    while n < 3 and a {op} b:\n        n = n + 1\n        b = b - 1\n    return n\n",
     "or": "def f(a: int, b: int) -> int:\n    if a > 100 or a {op} b:\n        return 1\n    return 0\n",
 }
+# a literal on one side of the comparison (canonicalising "constant to the right" rewrites live here); `{c}` is the literal.
+# The argument vectors are boundary-directed: c-1, c, c+1 and the ends of the range.
+CONST_CONTEXTS = {
+    "const-left-if": "def f(a: int, b: int) -> int:\n    if {c} {op} b:\n        return 1\n    return 0\n",
+    "const-right-if": "def f(a: int, b: int) -> int:\n    if b {op} {c}:\n        return 1\n    return 0\n",
+    "const-left-while": "def f(a: int, b: int) -> int:\n    n = 0\n    while {c} {op} b and n < 3:\n        n = n + 1\n        b = b + a\n    return n\n",
+    "const-right-while": "def f(a: int, b: int) -> int:\n    n = 0\n    while n < 3 and b {op} {c}:\n        n = n + 1\n        b = b + a\n    return n\n",
+    "const-left-or": "def f(a: int, b: int) -> int:\n    if a > 100 or {c} {op} b:\n        return 1\n    return 0\n",
+    "const-const": "def f(a: int, b: int) -> int:\n    if {c} {op} 3:\n        return 1\n    return 0\n",
+    "const-left-for": "def f(a: int, b: int) -> int:\n    n = 0\n    for i in range(5):\n        if {c} {op} i:\n            n = n + 1\n        if i {op} {c}:\n            n = n + 10\n    return n\n",
+}
 
 
 def check_comparisons(ctx, batch):
@@ -1192,6 +1223,32 @@ def check_comparisons(ctx, batch):
                     if canon_reply(got) != f"ret={want} trace=-":
                         ctx.fail(f"compare:{op}:{cname}:wrong-truth-value", f"{cname} context, {a} {sym} {b}: CPython returns {want}, compiled code {canon_reply(got)}",
                                  {"source": src, "a": a, "b": b}, got=got, want=want)
+        for cname, tmpl in CONST_CONTEXTS.items():
+            for c in ([0, 3, 1000, I64_MAX] if ctx.thorough else [0, 3, I64_MAX]):
+                if "while" in cname and c > 1000:
+                    continue
+                src = tmpl.format(op=sym, c=c)
+                mod, exc = compile_real(src, False)
+                if mod is None:
+                    ctx.fail(f"compile:internal-error:{type(exc).__name__}:compare-{op}", f"comparison {sym} in {cname} does not compile: {exc}", {"source": src})
+                    continue
+                py = irrun.Ir2Py(types.SimpleNamespace(module=mod, externals=[]))
+                entry = types.SimpleNamespace(name="f", params=[ir.i64, ir.i64], ret=ir.i64)
+                ns = {}
+                exec(src, ns)
+                bs = sorted({v for v in (c - 1, c, c + 1, 0, I64_MIN, I64_MAX) if I64_MIN <= v <= I64_MAX})
+                for a in (-1, 0, 1):
+                    for b in bs:
+                        if "while" in cname and abs(b) > (1 << 62):
+                            continue                  # b + a must stay within 64 bits
+                        want = ns["f"](a, b)
+                        got = py.run(entry, [a, b])
+                        ctx.count("eval_comparison")
+                        ctx.nontrivial(("cmp", op, cname, c, a, b))
+                        if canon_reply(got) != f"ret={want} trace=-":
+                            ctx.fail(f"compare:{op}:{cname}:wrong-truth-value",
+                                     f"{cname} context, constant {c}, b = {b}, a = {a}: CPython returns {want}, compiled code {canon_reply(got)}",
+                                     {"source": src, "a": a, "b": b}, got=got, want=want)
         for a in grid:
             for b in grid:
                 lines.append(f"pycmp {op} {a} {b}"); meta.append(("spec", op, a, b))
